@@ -7,7 +7,7 @@ from ..progen import gen_program, profile
 
 ID = "C02"
 PREFIX = ('c02:',)
-PROFILE = profile(group=16, spawn=20, start=8, catch=12, cancel=12, scope=8, forever=4, wait=4, ext=2, wrap=0, **{'raise': 10}, patterns={'cleanup_failure_under_outer_cancel': 2, 'shielded_group_failure': 1, '_chance': 25})
+PROFILE = profile(group=16, spawn=20, start=8, catch=12, cancel=12, scope=8, forever=4, wait=4, ext=2, wrap=0, **{'raise': 10}, patterns={'cleanup_failure_under_outer_cancel': 2, 'shielded_group_failure': 1, 'shielded_start_caller_group_failure': 2, '_chance': 30})
 RULE = ('Hypothesis-generated task trees with failure-heavy weights (body and children raising tagged Boom(n) before, during or after being cancelled, from handlers and shielded cleanup, nested groups, start() children whose starter is cancelled while they unwind); non-trivial = a group with >= 2 distinct raisers, or a start() child raising after its caller was cancelled; distinct = distinct canonical JSON')
 ASSUMPTIONS = ["reference semantics (mirror) evaluated on public attributes cancel_called/shield of every scope on the chain; the only private access is fetching a child's handle scope object at its first step", 'every indefinite wait sits in a harness guard scope cancelled after 40 cycles', "asyncio's FIFO ready queue is not permuted; schedules vary through generated delays, cancel placement, external loop callbacks and loop configuration"]
 TECHNIQUE = 'Hypothesis-generated task-tree programs; multiset comparison of exception-group leaf identities against the recorded terminal exceptions'
@@ -30,7 +30,7 @@ def strategy(tier):
 def run_case(case):
     out, stats, w, err = run_program(case)
     if not os.environ.get("VF_ALL_RULES"):
-        out.viols = [v for v in out.viols if v.rule.startswith(PREFIX) or v.rule == "unexpected-exception"]
+        out.viols = [v for v in out.viols if v.rule.startswith(PREFIX) or v.rule in ("unexpected-exception", "hang")]
     out.nontrivial = bool(stats["group_with_2plus_raisers"] > 0 or stats["start_child_raised_after_caller_cancelled"] > 0)
     out.labels = [k for k, v in stats.items() if v] + ["config-" + case["config"]]
     return out
